@@ -15,7 +15,7 @@ go build ./... || { echo "RESULT does-not-build"; exit 1; }
 if [ -z "$SKIP" ]; then
   if ! go test -vet=off -count=1 ./... > suite.log 2>&1; then grep -v "^ok\|no test files" suite.log | head -20; echo "RESULT existing-suite-fails"; exit 1; fi
 fi
-cp "$DEMO" "$PKG/"
+mkdir -p "$PKG"; cp "$DEMO" "$PKG/"
 timeout 300 go test -vet=off -count=1 ${MUT_GOTEST_FLAGS:-} -run "$RUN" "./$PKG/" > with.log 2>&1; WITH=$?
 git apply -R "$M/patch.diff"
 timeout 300 go test -vet=off -count=1 ${MUT_GOTEST_FLAGS:-} -run "$RUN" "./$PKG/" > without.log 2>&1; WITHOUT=$?
